@@ -626,7 +626,7 @@ Proof.
   pose proof (reach_inv s R) as [M Hrun]. pose proof (reach_inv s' (reach_step s o R)) as [M' Hrun'].
   pose proof (task_facts_stable s o R) as TS. fold s' in TS.
   pose proof (step_scope_frame s o) as [_ [_ [SFs SFt]]]. fold s' in SFs, SFt.
-  pose proof (new_task_qh (nscope s) s o R eq_refl) as NQ. fold s' in NQ.
+  pose proof (new_task_qh (nscope s, nfut s) s o R eq_refl) as NQ. fold s' in NQ.
   assert (Hng : ngroup s <= ngroup s') by (apply tstab_ngroup, TS).
   assert (RK : forall g, real s g -> g_scope (groups s' g) = g_scope (groups s g)) by (intros g; apply real_keep; auto).
   assert (RS : forall g, real s g -> real s' g) by (intros g Hr; unfold real; rewrite RK; auto).
@@ -666,7 +666,7 @@ Proof.
       * rewrite H3. cbn. pose proof (c_bsc s (m_c s M) t). lia.
     + assert (Hna : ~ alloc s t) by (unfold alloc; lia).
       destruct (c_unalloc s (m_c s M) t Hna) as [_ [_ [Hg0 _]]].
-      destruct (NQ t (or_introl Hg0)) as [Q|Q]; [contradiction|]. rewrite Q.
+      destruct (NQ t (or_introl Hg0)) as [Q|[Q _]]; [contradiction|]. rewrite Q. cbn [fst].
       destruct (RB g Hr) as [[H1 H2]|[H1 [[t0 [-> Hi]] H3]]].
       * rewrite H2. pose proof (Bg g). lia.
       * exfalso. destruct (group_new_facts s t0 Hi) as [Hnt _]. fold s' in Hnt.
